@@ -433,6 +433,9 @@ def run(ctx, args):  # noqa: C901
         what = "llgo could not build the generated multi-package program: " + (mm.group(0) if mm else msg[-400:])
         spec_failures.append(what)
         ctx.report("linkname:main-program-build:" + (mm.group(0) if mm else "failed"), what, {"files": f1, "output": msg})
+    elif len(mods) != len(order1):
+        ctx.broken.append("e2e: IR modules of the generated packages not found (-gen-llfiles)")
+        ctx.report_broken("e2e symbol tables", "found %d IR modules for %d generated packages under %s" % (len(mods), len(order1), os.path.join(ctx.llgo_dir, "xdg", "go-build")))
     else:
         defs = {}      # name -> [(module, linkage, body)]
         for m in mods:
